@@ -4,6 +4,7 @@ import (
 	"go/scanner"
 	"reflect"
 	"strings"
+	"unsafe"
 )
 
 // Foreign error types of every kind the library's typed-nil guard distinguishes.  For each NILABLE kind that can carry an
@@ -121,6 +122,8 @@ func isForeignNil(v error) bool {
 	switch t := v.(type) {
 	case *fptr:
 		return t == nil
+	case *customErr:
+		return t == nil
 	case sliceErr:
 		return t == nil
 	case mapErr:
@@ -150,6 +153,10 @@ func sameVal(a, b error) bool {
 	}
 	if ta.Comparable() {
 		return a == b
+	}
+	if fa, ok := a.(funcErr); ok { // reflect's Pointer() of a func is its code; the closure object is the identity
+		fb, _ := b.(funcErr)
+		return *(*unsafe.Pointer)(unsafe.Pointer(&fa)) == *(*unsafe.Pointer)(unsafe.Pointer(&fb))
 	}
 	return reflect.ValueOf(a).Pointer() == reflect.ValueOf(b).Pointer()
 }
